@@ -104,12 +104,14 @@ def main():
         if thorough:
             mcs = [("MergeMC_pairs(7 slots, <=3 blocks)", _cfg("MergeMC_pairs.cfg")), ("MergeMC_grid", _cfg("MergeMC_grid.cfg"))]
         else:
-            mcs = [("MergeMC_pairs(7 slots, <=2 blocks)", _cfg("MergeMC_pairs.cfg", **{"MaxBlocks = 3": "MaxBlocks = 2"})),
+            mcs = [("MergeMC_pairs(6 slots, <=2 blocks)", _cfg("MergeMC_pairs.cfg", **{"MaxBlocks = 3": "MaxBlocks = 2",
+                                                                                      "Slots = {1, 2, 3, 4, 5, 6, 7}": "Slots = {1, 3, 4, 5, 6, 7}"})),
                    ("MergeMC_grid(quick sets)", _cfg("MergeMC_grid.cfg", **{"<- GridSrc": "<- GridSrcQ", "<- GridDst": "<- GridDstQ"}))]
         pcfg = _cfg("MergeGen_pairs.cfg", **({"Slots = {1, 3, 4, 5, 6, 7}": "Slots = {1, 2, 3, 4, 5, 6, 7}"} if thorough else {}))
-        jobs = [lambda l=l, c=c: vlib.tlc("merge", "MergeMC", c, coverage=True, timeout=1200, workers=4) for l, c in mcs]
-        jobs.append(lambda: vlib.tlc("merge", "MergeGen", pcfg, timeout=1200, workers=4))
-        jobs.append(lambda: vlib.tlc("merge", "MergeGen", "MergeGen_grid.cfg" if thorough else "MergeGen_gridQ.cfg", timeout=1200, workers=4))
+        nw = 4 if thorough else 2
+        jobs = [lambda l=l, c=c: vlib.tlc("merge", "MergeMC", c, coverage=True, timeout=1200, workers=nw) for l, c in mcs]
+        jobs.append(lambda: vlib.tlc("merge", "MergeGen", pcfg, timeout=1200, workers=nw))
+        jobs.append(lambda: vlib.tlc("merge", "MergeGen", "MergeGen_grid.cfg" if thorough else "MergeGen_gridQ.cfg", timeout=1200, workers=nw))
         with ThreadPoolExecutor(len(jobs)) as ex:
             res = [f.result() for f in [ex.submit(j) for j in jobs]]
         for (label, _), r in zip(mcs, res[:2]):
